@@ -567,7 +567,10 @@ def random_case(rng, idx):
             form = rng.choice(["lambda", "def"])
             doc = rng.choice([None, None] + DOCS)
             way = None if doc is None else rng.choice(["set"] if form == "lambda" else ["set"] + ["source-" + s for s, _ in doc_literal_styles(doc[1])])
-            blocks.append(cells_block("c%d" % j, h, nm, form, rng.random() < 0.6, rng.choice([None, True, False]), doc, way))
+            b = cells_block("c%d" % j, h, nm, form, rng.random() < 0.6, rng.choice([None, True, False]), doc, way)
+            if h == "B":        # B already has the sub space D: the cells and its flags arrive after the derivation
+                b = (b[0], b[1] + ("base-edit-after-derive:new-cells",))
+            blocks.append(b)
         elif kind == "ref":
             k, expr, cls = rng.choice(REFVALS)
             if rng.random() < 0.2:
